@@ -7,6 +7,7 @@ the reference for "what the asset computed for its variables".
 """
 import collections
 import numpy as np
+import pandas as pd
 
 from mc import scenario as S
 from mc.explore import chash
@@ -537,6 +538,29 @@ def run_case(case):
             if want != got:
                 res["violations"].append(viol("c07.multiset", "split: mapping of an interval does not describe its variables", tags, ["split"]))
                 break
+            # ... and names the step of the ORIGINAL grid the variable belongs to: the time point of the interval's own step
+            # (interval partition of the original steps from the independent grid model; an interval has a problem iff an asset
+            #  is active in it - decided from the life times of the scenario)
+            if len(sub.mapping) and len(sel) == len(sub.mapping):
+                if off == 0:
+                    from ref import lp as R2_
+                    g_ = Grid.from_json(scn["grid"])
+                    active_steps = set()
+                    for a_ in scn["assets"]:
+                        active_steps |= set(g_.window(a_.get("start"), a_.get("end"), scn.get("date_tz"))) if a_["type"] not in ("OrderBook",) else set(range(g_.T))
+                    parts = [I_ for I_ in R2_.split_intervals(g_, scn["mode"].split(":", 1)[1]) if set(I_) & active_steps]
+                    part_no = 0
+                if len(parts) != len(op.ops):   # (the reference cannot tell which intervals carry a problem: no claim)
+                    parts = []
+                    res["counters"]["split_steps_unmatched"] = 1
+                I_ = parts[part_no] if part_no < len(parts) else None
+                part_no += 1
+                want_steps = None if I_ is None or len(I_) <= int(max(sub.mapping["time_step"].values)) else sorted(I_[int(t)] for t in sub.mapping["time_step"].values)
+                got_steps = sorted(int(t) for t in sel["time_step"].values)
+                if want_steps is not None and want_steps != got_steps:
+                    res["violations"].append(viol("c07.split_steps", "split: the rows of an interval name the steps %s of the original grid, the interval covers %s"
+                                                  % (sorted(set(got_steps))[:6], sorted(set(want_steps))[:6]), tags, ["split", "steps"]))
+                    break
             off += len(sub.c)
         res["nontrivial"] = bool(len(op.ops) >= 2 and n_nod >= 1)
         res["fingerprint"] = chash([np.round(op.c, 9).tolist(), sorted(map(str, idx.tolist()))])
